@@ -39,6 +39,8 @@ type RunStats struct {
 	FailFile    string         `json:"fail_file,omitempty"`
 	WallS       float64        `json:"wall_s"`
 	Requested   int            `json:"requested"`
+	Rule        string         `json:"rule"`
+	API         map[string]int `json:"api_calls,omitempty"`
 	nt          map[string]bool
 	start       time.Time
 }
@@ -67,6 +69,7 @@ func (s *RunStats) Write() {
 	}
 	sort.Strings(s.NonTrivial)
 	s.WallS = time.Since(s.start).Seconds()
+	s.API = APIHits
 	b, _ := json.Marshal(s)
 	_ = os.WriteFile(path, b, 0o644)
 }
@@ -93,8 +96,11 @@ func sigKnown(known map[string]bool, sig string) bool {
 
 // RunCase generates and executes one case of property pd.
 func RunCase(t *rapid.T, pd *PropDef, st *RunStats, known map[string]bool) {
+	st.Rule = pd.Rule
 	cfg := DrawConfig(t, pd.Profile)
-	it := NewInterp(cfg, pd.Policies, pd.Opt)
+	opt := pd.Opt
+	opt.Known = func(sig string) bool { return sigKnown(known, sig) }
+	it := NewInterp(cfg, pd.Policies, opt)
 	g := &Gen{P: pd.Profile, It: it}
 	n := rapid.IntRange(pd.Profile.MinOps, pd.Profile.MaxOps).Draw(t, "nops")
 	var ops []Op
@@ -144,6 +150,9 @@ func RunCase(t *rapid.T, pd *PropDef, st *RunStats, known map[string]bool) {
 	}
 	st.Evaluations++
 	st.Ops += len(ops)
+	for k, v := range it.ExcludedSigs {
+		st.Excluded[k] += v
+	}
 	for k, v := range it.Cnt {
 		if v > 0 {
 			st.Classes["cases-with-"+k]++
